@@ -240,7 +240,10 @@ open Lean Elab Command in
         self.n_corpus = len(lines)
         lines += list(extra_lines)
         if self.prop in gen.GENERATORS:
-            lines += list(gen.GENERATORS[self.prop](g, n))
+            import random
+            # about one request in twelve is followed at once by its "siblings" (same call again, other mode, other representation
+            # of the same value, related conversion, extended text): a call must not depend on the calls made before it
+            lines += gen.with_siblings(list(gen.GENERATORS[self.prop](g, n)), random.Random(self.seed + 11))
         return lines
 
     # ------------------------------------------------------------------ 5. run + compare
